@@ -20,8 +20,10 @@ Record pkgin := mk_pkgin {
   k_scope : list (okind * bytes * N);    (* oracle: Pkg().Scope(): kind, name, object id *)
   k_queries : list tquery;
   k_dir : bytes;                         (* oracle: the directory holding the package's files *)
-  k_probes : list bytes                  (* per probed position (all inside this package's files):
+  k_probes : list bytes;                 (* per probed position (all inside this package's files):
                                             filepath.Dir of the file name go/token reports for it *)
+  k_pos_ties : bool                      (* two methods share (file name, offset) — through //line directives only;
+                                            object ids are the ranks of the positions in (file name, offset) order *)
 }.
 
 (* ---- observations ---- *)
@@ -103,8 +105,14 @@ Definition funcs_same (defs : list obj) (a b : tbl) : bool :=
   Nat.eqb (length a) (length b)
   && forallb (fun kv => func_entry_ok defs (tbl_get (fst kv) a) (fst kv) (Some (snd kv))) b.
 
+(* MethodsOf: the model's answer on the tables newPkg leaves behind (loop, then the ordering by position = by object
+   id) is compared with the observed list IN ORDER; when two methods share a position the order of the unstable
+   sort.Slice is open and the comparison is up to order *)
+Definition methods_same (ties : bool) (model observed : list N) : bool :=
+  if ties then listN_eqb (sortN model) (sortN observed) else listN_eqb model observed.
+
 Definition model_pkgobs_ok (universe : list pinfo) (k : pkgin) (o : pkgobs) : bool :=
-  let t := fill_tables fx (k_defs k) in
+  let t := new_pkg_tables fx o_id (k_defs k) in
   tbl_same (t_types t) (ob_types o)
   && tbl_same (t_consts t) (ob_consts o)
   && funcs_same (k_defs k) (t_funcs t) (ob_funcs o)
@@ -115,8 +123,8 @@ Definition model_pkgobs_ok (universe : list pinfo) (k : pkgin) (o : pkgobs) : bo
   && same_len (k_queries k) (ob_methods o)
   && forallb (fun qo =>
                 let q := fst qo in
-                listN_eqb (sortN (map o_id (methods_of fx t (q_ref q) true))) (sortN (fst (snd qo)))
-                && listN_eqb (sortN (map o_id (methods_of fx t (q_ref q) false))) (sortN (snd (snd qo))))
+                methods_same (k_pos_ties k) (map o_id (methods_of fx t (q_ref q) true)) (fst (snd qo))
+                && methods_same (k_pos_ties k) (map o_id (methods_of fx t (q_ref q) false)) (snd (snd qo)))
              (zip (k_queries k) (ob_methods o))
   && match source_dir join_clean (k_info k) with
      | Ok d => bytes_eqb d (ob_source_dir o)
